@@ -26,6 +26,8 @@ pub struct SubPlan {
 
 #[derive(Clone, Debug)]
 pub struct VCase {
+    /// the executor polls a spawned task only after nurse() and the greeting have returned
+    pub defer_first_poll: bool,
     pub periods: Vec<u64>,
     pub subs: Vec<SubPlan>,
     pub max_steps: usize,
@@ -61,10 +63,11 @@ pub fn gen_vcase(c: &mut Chooser, allow_j: bool) -> VCase {
             let j = if allow_j && c.chance(1, 5) { 1 + c.choose(2) as u64 } else { 0 };
             let mut probe = gen_probe_spec(c, true);
             probe.pull_cap = 50;
+            probe.drop_talkback = c.chance(1, 6);
             SubPlan { source: c.choose(n_src), fault, j, probe }
         })
         .collect();
-    VCase { periods, subs, max_steps: 6 + c.choose(20) }
+    VCase { defer_first_poll: c.chance(1, 2), periods, subs, max_steps: 6 + c.choose(20) }
 }
 
 struct SubRt {
@@ -95,6 +98,7 @@ pub fn run_vcase(case: &VCase, c: &mut Chooser, seed_rng: Rng) -> VResult {
     {
         let mut g = exec.0.lock().unwrap();
         g.faults = case.subs.iter().map(|s| s.fault).collect();
+        g.defer_first_poll = case.defer_first_poll;
         g.elapse_inside_nurse =
             case.subs.iter().map(|s| s.j * case.periods[s.source]).collect();
     }
@@ -146,6 +150,7 @@ pub fn run_vcase(case: &VCase, c: &mut Chooser, seed_rng: Rng) -> VResult {
                 if spawned_after > spawned_before {
                     rts[*i].task = Some(spawned_before);
                 }
+                exec.run_unpolled();
                 next_sub += 1;
             },
             VAct::Advance(d) => {
@@ -301,13 +306,14 @@ fn oracle(case: &VCase, world: &Arc<World>, exec: &VExec, rts: &[SubRt]) {
 pub fn vcase_json(r: &VResult) -> J {
     let g = r.world.lock();
     J::obj()
+        .set("executor_defers_first_poll", J::Bool(r.case.defer_first_poll))
         .set("periods_us", J::arr(r.case.periods.iter().map(|p| J::i(*p as i64))))
         .set(
             "subscriptions",
             J::arr(r.case.subs.iter().enumerate().map(|(i, s)| {
                 J::s(&format!(
-                    "S{}: source {} fault={:?} periods-elapsing-inside-nurse={} policy={:?} rest={:?}",
-                    i, s.source, s.fault, s.j, s.probe.policy, s.probe.rest
+                    "S{}: source {} fault={:?} periods-elapsing-inside-nurse={} policy={:?} rest={:?}{}",
+                    i, s.source, s.fault, s.j, s.probe.policy, s.probe.rest, if s.probe.drop_talkback { " drops-its-talkback" } else { "" }
                 ))
             })),
         )
@@ -331,6 +337,7 @@ fn run_k2_witness(o: &Opts, rep: &mut Report) {
     }
     let known = load_known(&o.known);
     let case = VCase {
+        defer_first_poll: false,
         periods: vec![3000],
         subs: vec![SubPlan { source: 0, fault: None, j: 1, probe: ProbeSpec::passive() }],
         max_steps: 1,
